@@ -799,6 +799,12 @@ func (state *RuntimeState) getUsernameIfKeymasterSigned(VerifiedChains [][]*x509
 		if len(chain) < 2 {
 			continue
 		}
+		// An IP restricted certificate is signed by the same key, but it is
+		// a credential only from inside its netblocks (see
+		// getUsernameIfIPRestricted): never an unrestricted user certificate.
+		if certgen.HasIPRestriction(chain[0]) {
+			continue
+		}
 		username := chain[0].Subject.CommonName
 		//keymaster certs as signed directly
 		certSignerPKFingerprint, err := getKeyFingerprint(chain[1].PublicKey)
